@@ -58,6 +58,20 @@ CLAIMED.update({
              text="Decides the triggers and the walk's shape: reorder_incident_halffaces is called in add_cell, delete_face_core, delete_cell_core and both enable functions under exactly 'both kinds available', independent of the deletion mode and after the victim is unlinked; forward walk appends, backward walk uses the opposite halfedge and prepends, both are bounded, the mirrored reverse is written to the opposite halfedge, replacement only when complete; adjacent_halfface_in_cell's acceptance condition has all three conjuncts. Not decided: that the walk produces the rotational order.",
              design="3/C09"),
 })
+CLAIMED.update({
+ "C08": dict(technique="static analysis: symbolic evaluation of the handle conversion functions in the sub-index decomposition domain (linear forms over x=2q+b), static_assert compile-fail witnesses over the constexpr handle members, shape rules for the mirror constructions",
+             text="Decides for EVERY index (symbolically, q unbounded): full(half(e,s))=e, subidx(half(e,s))=s, half(full(h),subidx(h))=h, opp(opp(h))=h, full(opp(h))=full(h), subidx(opp(h))=1-subidx(h) for both the handle-class members and the TopologyKernel conversion functions; the same laws at compile time at the boundaries and over two ranges; mirror construction shapes (opposite_halfedge/halfface, halfedge()/halfface(), halfface circulators, next/prev with wrap, add_face(vertices) orientation decision). Not decided: closedness of faces on arbitrary histories.",
+             design="3/C08, 2/W"),
+ "C15": dict(technique="static analysis: static_assert compile-fail witnesses over the constexpr TetTopology label tables, switch-table agreement on the CFG, permutation-literal parity, extracted face layout tables, count-use-after-deletion rule",
+             text="Decides: all TetTopology label laws (names encode vertices, bit arithmetic, groups, rotations, parity, halfedge joins) exhaustively at compile time; the run-time dispatch maps each of the 32 labels to its own instance; every vertex-reordering literal in get_cell_vertices is an even permutation with the tested vertex first; both add_cell(vertex) overloads build the same closed oriented tetrahedron; split_* replace exactly one vertex per new cell; collapse/split restore the deletion mode and never read logical counts after a deferred deletion; valence guards. Not decided: collapse_edge's resulting mesh.",
+             design="3/C15, 2/W"),
+ "C16": dict(technique="static analysis: layout-table extraction from the vertex-list construction sequence, combinatorial cube-surface laws, symbolic evaluation of opposite_orientation, guard-fact extraction of the 24-entry orthogonal_orientation table and its algebraic laws",
+             text="Decides: the six vertex quadruples of add_cell(8 vertices) form a closed oriented cube surface with disjoint opposite pairs and the fixed handedness 2,4,3,5 (mirror 3,4,2,5), looked-up = created quadruples, four-vertex lookup, storage order; constants, accessors, opposite pairing, opposite_halfface_handle_in_cell; orthogonal_orientation's domain, third-axis, antisymmetry, sign-flip and handedness laws; order tables and start offsets of the ordering check; orientation-aware accessor in the re-ordering walk; sheet circulator's exclusion test; valence guards. Not decided: HexVertexIter walk, re-ordering of arbitrary permuted input.",
+             design="3/C16"),
+ "C19": dict(technique="static analysis: index-table and reduction-offset rules over all instantiated VectorT members, shape rules for the GeometryKernel queries",
+             text="Decides (index tables only, no numerics): cross product component table; homogenized; every accumulate/inner_product skips exactly the elements that form its initial value; scalar compound operators apply `e op= s` with the parameter itself; vector compound operators combine component i with component i over [0,DIM); binary operators defer to the compound ones; min/max family uses the named operation over the full extent; vector/barycenter/normal shapes incl. the circulator that delivers each vertex once. Not decided: numerical results, rounding, stream I/O.",
+             design="3/C19"),
+})
 NOT_YET = {}
 NA = {
  "C10": "soundness/completeness of the lookup queries against a brute-force search is an equality over runtime values of small search loops; no structural necessary condition exists that is not a brittle proxy (DESIGN 3/C10)",
